@@ -8,22 +8,44 @@ CORR_TARGETS = ["theories/C19/Corr.vo"]
 TARGETS = ["theories/Properties/C19.vo"]
 PROPERTIES_FILE = "theories/Properties/C19.v"
 IMPL = "harness.props.c19_impl"
-TABLE_DEPS = []
-SHARD = 150
+TABLE_DEPS = ["edn_str_escape_chars", "edn_write_escapes", "edn_dispatch_chars", "bencode_tokens"]
+SHARD = 300
+NWORKERS = 2
 FINDINGS = {}
 EXHAUSTIVE = {"quick": False, "thorough": False}
 RULE = ("bencode: generated message streams (1-4 canonical messages: ints of any size, byte strings over "
-        "framing-relevant bytes, nested lists, dicts), EVERY cut point 0..len of every stream through "
-        "decode-all; encode alone; a malformed stream (hand-written + mutations of valid streams). "
-        "A case is non-trivial when the stream is non-empty; distinct = distinct JSON encoding.")
-TRUSTED = ["CPython int(bytes)/str(int) modelled by py_int/dec_Z (base 10, whitespace, sign, underscores); the "
-           "4300-digit limit of int<->str conversion is outside the model",
+        "framing-relevant bytes, nested lists, dicts) -- one case per stream, EVERY cut point 0..len of the stream "
+        "through decode-all inside the case; encode alone against the reference encoding; Lisp-level values "
+        "(strings/keywords/symbols, maps in hash order) through encode+decode-all; a malformed stream (hand-written "
+        "+ byte mutations of valid streams). EDN: every string of length <= 2 (thorough: <= 3) over 16 (12) "
+        "escape-relevant characters plus random length-3 ones, integers, floats, keywords/symbols over a name pool x "
+        "namespaces, random nested vectors/lists/sets/maps, each written by edn/write-string and read back by "
+        "edn/read-string (rd 0) and by core/read-string (rd 1); raw texts through both readers. JSON: strings, "
+        "scalars, nested collections with string/keyword/symbol keys through write-str + read-str. A case is "
+        "non-trivial when its value/stream is non-empty; distinct = distinct JSON encoding.")
+TRUSTED = ["CPython int(bytes)/int(str)/str(int) modelled by py_int/dec_Z (base 10, ASCII whitespace, sign, single "
+           "underscores); the 4300-digit limit of int<->str conversion is outside the model (encode raises, nothing "
+           "is emitted)",
            "CPython sorted() modelled as a stable insertion sort on the encoded key",
-           "Python bytes slicing/index modelled by firstn/skipn/index_of (negative slice bounds included)"]
+           "Python bytes slicing/index modelled by firstn/skipn/index_of (negative slice bounds included)",
+           "CPython float(str)/repr(float) enter the EDN theorems as the parameter pf with hypothesis "
+           "pf t = Some t for repr tokens t; in the correspondence run pf is the identity and the generated float "
+           "tokens are chosen so that this is exact",
+           "Python's \\s and \\d classes are approximated (the 25 Unicode white-space characters; ASCII digits)",
+           "Python json.dumps/json.loads are parameters of C19_json_coercion (inverse on trees with distinct keys)",
+           "str.encode('utf-8') modelled by utf8 (no surrogates)",
+           "harness/tr/tr_codecs.py (text parser for the edn.lpy tables and the bencode.lpy byte constants)"]
 ASSUMPTIONS = ["bencode decode is modelled with empty opts (identity :string-fn/:key-fn); nil and b\"\" are identified "
                "(every operation of the source raises on nil where it raises or cannot occur on b\"\")",
                "a nil dict key (negative length prefix in key position, malformed input only) is not representable "
-               "in the model (model answers Exc)"]
+               "in the model (model answers Exc)",
+               "maps and sets are lists in the order the writer walks them; values handed to the real code have "
+               "pairwise distinct keys/members (Python equality: 1, 1.0 and true collide)",
+               "the Lisp reader is modelled only on the token language the EDN writer emits; character literals, "
+               "tagged elements, ##Inf/##NaN, comments, quote/meta/deref prefixes, octal/hex/ratio/radix numbers "
+               "and floats with a fractional significand and an exponent (Lisp reader) answer 'outside the model'",
+               "symbols named nil/true/false, names containing '/', ':' or starting like a number are outside the "
+               "EDN universe (they cannot be distinguished in text) and are not generated"]
 
 
 # ---- generators ----------------------------------------------------------------------
@@ -234,12 +256,59 @@ def strings_upto(alpha, n):
             yield "".join(t)
 
 
+BL_STRS = ["", "a", "op", "é", "中", "e", "1:", "\U0001f600", "id"]
+
+
+def gen_lkey(rng):
+    r = rng.random()
+    if r < 0.4:
+        return {"s": rng.choice(BL_STRS)}
+    if r < 0.8:
+        return {"kw": [rng.choice([None, "n"]), rng.choice(["a", "op", "id", "é", "k-1"])]}
+    return {"sym": [rng.choice([None, "n"]), rng.choice(["a", "op", "x"])]}
+
+
+def lkey_text(k):
+    if "s" in k:
+        return k["s"]
+    ns, nm = k.get("kw") or k.get("sym")
+    return nm if ns is None else ns + "/" + nm
+
+
+def gen_lval(rng, depth, distinct=True):
+    r = rng.random()
+    if depth <= 0 or r < 0.5:
+        q = rng.random()
+        if q < 0.25:
+            return {"i": rng.choice(B_INTS)}
+        if q < 0.45:
+            return {"by": list(rng.choice(B_STRS))}
+        if q < 0.7:
+            return {"s": rng.choice(BL_STRS)}
+        if q < 0.85:
+            return {"kw": [rng.choice([None, "n"]), rng.choice(["a", "op", "é"])]}
+        return {"sym": [rng.choice([None, "n"]), rng.choice(["a", "x"])]}
+    if r < 0.65:
+        return {"v": [gen_lval(rng, depth - 1, distinct) for _ in range(rng.randint(0, 3))]}
+    if r < 0.75:
+        return {"l": [gen_lval(rng, depth - 1, distinct) for _ in range(rng.randint(0, 3))]}
+    out, texts, keys = [], set(), set()
+    for _ in range(rng.randint(0, 4)):
+        k = gen_lkey(rng)
+        if _jd(k) in keys or (distinct and lkey_text(k) in texts):
+            continue
+        keys.add(_jd(k))
+        texts.add(lkey_text(k))
+        out.append([k, gen_lval(rng, depth - 1, distinct)])
+    return {"m": out}
+
+
 def gen_stream(rng):
     return [gen_bval(rng, 2) for _ in range(rng.randint(1, 4))]
 
 
 def cases(tier, rng):
-    n_streams = 400 if tier == "quick" else 5000
+    n_streams = 200 if tier == "quick" else 5000
     streams = list(FIXED_STREAMS) + [gen_stream(rng) for _ in range(n_streams)]
     for msgs in streams:
         total = sum(len(py_encode(m)) for m in msgs)
@@ -249,6 +318,8 @@ def cases(tier, rng):
     for msgs in streams[: (60 if tier == "quick" else 400)]:
         for m in msgs:
             yield {"k": "benc", "v": m}
+    for _ in range(250 if tier == "quick" else 4000):
+        yield {"k": "blisp", "v": gen_lval(rng, 3)}
     for b in RAW_FIXED:
         yield {"k": "braw", "data": list(b)}
     for _ in range(300 if tier == "quick" else 5000):
@@ -293,14 +364,14 @@ def cases(tier, rng):
                 yield {"k": "edn", "rd": rd, "v": {"kw": [ns, nm]}}
                 if not (ns is not None and nm.startswith(".")):
                     yield {"k": "edn", "rd": rd, "v": {"sym": [ns, nm]}}
-    for _ in range(500 if tier == "quick" else 8000):
+    for _ in range(400 if tier == "quick" else 8000):
         rd = rng.randint(0, 1)
         yield {"k": "edn", "rd": rd, "v": gen_edn(rng, rd, 3, findings=rng.random() < 0.3)}
     for rd in (0, 1):
         for t in EDN_TEXTS:
             yield {"k": "ednt", "rd": rd, "text": t}
     for _ in range(300 if tier == "quick" else 4000):
-        yield {"k": "json", "v": gen_json(rng, 3, distinct=rng.random() < 0.9)}
+        yield {"k": "json", "v": gen_json(rng, 3)}
 
 
 # ---- Gallina -------------------------------------------------------------------------
@@ -425,6 +496,34 @@ def order_free(j):
     return True
 
 
+def coq_lkey(k):
+    if "s" in k:
+        return f"(LKStr {cps(k['s'])})"
+    if "kw" in k:
+        return f"(LKKw {ostr(k['kw'][0])} {cps(k['kw'][1])})"
+    return f"(LKSym {ostr(k['sym'][0])} {cps(k['sym'][1])})"
+
+
+def coq_lval(j):
+    if "i" in j:
+        return f"(LInt {G.z(j['i'])})"
+    if "by" in j:
+        return f"(LBytes {hx(j['by'])})"
+    if "s" in j:
+        return f"(LStr {cps(j['s'])})"
+    if "kw" in j:
+        return f"(LKw {ostr(j['kw'][0])} {cps(j['kw'][1])})"
+    if "sym" in j:
+        return f"(LSym {ostr(j['sym'][0])} {cps(j['sym'][1])})"
+    if "v" in j:
+        return "(LVec " + G.lst([coq_lval(e) for e in j["v"]], "lval") + ")"
+    if "l" in j:
+        return "(LList " + G.lst([coq_lval(e) for e in j["l"]], "lval") + ")"
+    if "m" in j:
+        return "(LMap " + G.lst([f"({coq_lkey(k)}, {coq_lval(v)})" for k, v in j["m"]], "(lkey * lval)") + ")"
+    raise ValueError(j)
+
+
 _CUR = {}
 
 
@@ -437,6 +536,8 @@ def coq_case(c):
         return f"(CEdnText {c['rd']}%N {cps(c['text'])})"
     if k == "json":
         return f"(CJson {coq_jval(c['v'])})"
+    if k == "blisp":
+        return f"(CBLisp {coq_lval(c['v'])})"
     if k == "bstream":
         return "(CBStream " + G.lst([coq_bval(m) for m in c["msgs"]], "bval") + ")"
     if k == "braw":
